@@ -69,7 +69,9 @@ KindStep(k) ==
 Steered ==
   \E kn \in {RandomElement(Bag)} :
      /\ KindStep(kn[1])
-     /\ (last'.res = "fail" /\ kn[1] \notin {"callerError", "commit"}) => RandomElement(1..FailOneIn) = 1
+     \* (a delete that is refused because its cascade reaches a system entity is rare and always kept)
+     /\ (last'.res = "fail" /\ kn[1] \notin {"callerError", "commit"} /\ ~(kn[1] \in {"deleteTeam", "deleteWhere"} /\ "system" \in last'.app))
+           => RandomElement(1..FailOneIn) = 1
 
 \* (the simulator evaluates invariants on every successor it generates, not only on the one it picks:
 \*  a behaviour is therefore printed from the single successor of its last state)
